@@ -159,19 +159,34 @@ def run(cx):
     c = fb.one(r"InternalStorage<Db>>::run_garbage_collection$")
     add = blocks_calling(c, r"garbage_collection::add_dependencies_to_queue$")
     ins = [b for b in blocks_calling(c, r"DashMap::<K, V, S>::insert$")]
-    revs = aggregates(c, r"^pico::derived_node::DerivedNodeRevision$")
+    # revisions built in the collector: struct literals, or calls of a constructor that forwards its parameters
+    revs = [(r.bb, r.line, {n: o for n, o in zip(r.j.get("fields", []), r.ops)}) for r in aggregates(c, r"^pico::derived_node::DerivedNodeRevision$")]
+    for t in c.calls():
+        k_ = fb.fns.get(t.callee)
+        if k_ is None or k_.crate != "pico" or k_ is c:
+            continue
+        for r in aggregates(k_, r"^pico::derived_node::DerivedNodeRevision$"):
+            import samesrc
+            m_ = {}
+            for n, o in zip(r.j.get("fields", []), r.ops):
+                pl = op_place(o)
+                pr = samesrc.producer(k_, pl.local) if pl is not None else None
+                if pr and pr[0] == "param" and pr[1] - 1 < len(t.args):
+                    m_[n] = t.args[pr[1] - 1]
+            if m_:
+                revs.append((t.bb, t.line, m_))
     if len(add) != 1 or not revs:
         raise AnchorError("collector: expected one add_dependencies_to_queue call and a DerivedNodeRevision")
-    cx.ob("R03.trace", c.id + "|deps-enqueued-for-kept-node", all(c.dominates(add[0], r.bb) for r in revs),
+    cx.ob("R03.trace", c.id + "|deps-enqueued-for-kept-node", all(c.dominates(add[0], bb_) for bb_, _, _ in revs),
           "a node is kept without its dependencies being enqueued (reachable nodes would be dropped)", c.loc())
-    for r in revs:
-        f0 = op_place(r.ops[0])
-        f1 = op_place(r.ops[1])
+    for bb_, line_, fm in revs:
+        f0 = op_place(fm.get("time_updated")) if fm.get("time_updated") is not None else None
+        f1 = op_place(fm.get("time_verified")) if fm.get("time_verified") is not None else None
         src0 = local_flows_from(c, f0.local, lambda d: hasattr(d, "rv") and any(p.last_field() == "time_updated" for p in d.reads())) if f0 else None
         src1 = local_flows_from(c, f1.local, lambda d: hasattr(d, "rv") and any(p.last_field() == "time_verified" for p in d.reads())) if f1 else None
         cx.ob("R03.trace", c.id + "|revision-times-preserved", src0 is not None and src1 is not None,
               "a kept revision must copy time_updated/time_verified from the old revision (otherwise retained "
-              "results are re-executed or wrongly reused)", c.loc(r.line))
+              "results are re-executed or wrongly reused)", c.loc(line_))
     q = fb.one(r"pico::garbage_collection::add_dependencies_to_queue$")
     fam = [(g_, s_) for g_ in fb.with_closures(q) for s_ in discr_switches(g_) if s_["adt"] == "pico::dependency::NodeKind"]
     if len(fam) != 1:
